@@ -1,14 +1,90 @@
 /-
   SpecKitV.Drv.ExtRms — driver operations of the generated region `Rms` (extension point: `dispatch op` returns
   `some handler` for the operations this file serves).  Mathlib-free.
+
+  Every operation executes the GENERATED definitions of lean/SpecKitV/Gen/Rms.lean at `Float`:
+    gcrop    <x> <y> <xmin> <xmax>                      ->  RAISE | n x'_0 … x'_{n-1} y'_0 … y'_{n-1}      Gen.crop_data
+    grms     <f> <asd> 0 | <f> <asd> 1 <b0> <b1>        ->  RAISE | value                                  Gen.integral_rms
+    ggetrms  <iscsd> <f> <asd> 0 | … 1 <b0> <b1>        ->  RAISE | value                                  Gen.get_rms
+    gdetrend <x> <order> <m> <coeffs_0> … <coeffs_{m-1}> ->  RAISE | n r_0 … r_{n-1}                        Gen.polynomial_detrend
+  (<v> = length followed by the elements as 16-hex-digit bit patterns).  A band edge / crop bound that is ±inf on the wire becomes
+  `XR.pinf` / `XR.ninf`, anything else `XR.fin`.  `np.polyfit` is a parameter of `Gen.polynomial_detrend`: the harness supplies the
+  coefficient vectors NumPy returns for the degrees 0 … m-1 and the driver answers the request `polyfit t x deg` from that table
+  (an empty entry = NumPy's polyfit raised for that degree: `none`, as for a degree outside the table).
 -/
 import SpecKitV.Drv.Base
+import SpecKitV.Gen.Rms
 
 namespace Drv.ExtRms
 open Drv
+open Np.Rms
+
+def posInf : Float := 1.0 / 0.0
+
+def toXR (v : Float) : XR Float :=
+  if v == posInf then XR.pinf else if v == -posInf then XR.ninf else XR.fin v
+
+def outArr (a : Arr Float) : String := joinF ((List.range a.n).map a.get)
+
+def optBand : M (Option (XR Float × XR Float)) := do
+  let hasBand ← nat
+  if hasBand == 1 then
+    let a ← flt
+    let b ← flt
+    return some (toXR a, toXR b)
+  else
+    return none
+
+def opCrop : M String := do
+  let x ← fltArr
+  let y ← fltArr
+  let lo ← flt
+  let hi ← flt
+  match Gen.crop_data (arrF x) (arrF y) (toXR lo) (toXR hi) with
+  | none => return "RAISE"
+  | some (xc, yc) => return s!"{xc.n} {yc.n} {outArr xc} {outArr yc}"
+
+def opRms : M String := do
+  let f ← fltArr
+  let y ← fltArr
+  let band ← optBand
+  match Gen.integral_rms (arrF f) (arrF y) band with
+  | none => return "RAISE"
+  | some v => return fmt v
+
+def opGetRms : M String := do
+  let iscsd ← nat
+  let f ← fltArr
+  let y ← fltArr
+  let band ← optBand
+  match Gen.get_rms (iscsd == 1) (arrF f) (arrF y) band with
+  | none => return "RAISE"
+  | some v => return fmt v
+
+def opDetrend : M String := do
+  let x ← fltArr
+  let order ← int
+  let m ← nat
+  let mut table : Array (Array Float) := Array.mkEmpty m
+  for _ in [0:m] do
+    table := table.push (← fltArr)
+  -- the contract parameter: NumPy's own answer for the requested degree; an empty entry (or a degree outside the table) means
+  -- "np.polyfit raised" (`none`)
+  let polyfit : Arr Int → Arr Float → Int → Option (Arr Float) := fun _ _ deg =>
+    if deg < 0 then none
+    else
+      let c := table.getD deg.toNat #[]
+      if c.size == 0 then none else some (arrF c)
+  match Gen.polynomial_detrend polyfit (arrF x) order with
+  | none => return "RAISE"
+  | some r => return s!"{r.n} {outArr r}"
 
 def dispatch (op : String) : Option (M String) :=
   match op with
+  | "gcrop" => some opCrop
+  | "grms" => some opRms
+  | "ggetrms" => some opGetRms
+  | "gdetrend" => some opDetrend
   | _ => none
 
 end Drv.ExtRms
